@@ -356,6 +356,11 @@ func C19(c *core.Ctx) {
 		if err2 != nil || !lds.Equal(got, got2) {
 			results[i].lines = append(results[i].lines, "(determinism): two constructions from equal bytes give different views")
 		}
+		// the object is built from a PRIVATE copy: overwriting the caller's buffer afterwards changes neither the raw
+		// bytes it holds nor anything of its parsed view (every field the library's own JSON rendering shows)
+		if msg := ownViewLaw(tc.kind, raw); msg != "" {
+			results[i].lines = append(results[i].lines, "(own copy): "+msg)
+		}
 		notExposed(tc.kind, ref)
 		if tc.kind == "DG11" {
 			dropEmptyComponents(ref, "placeOfBirth", "address", "otherValidTDNumbers")
@@ -527,6 +532,7 @@ func C19(c *core.Ctx) {
 		specS, _ := lds.ShapeSOD(ver, 2, rnd.Intn(2) == 0, rnd)
 		add("SOD", specS)
 		want := lds.ExpectedSummary(files)
+		imageFormats(want)
 		for _, k := range []string{"issuingState", "nationality"} {
 			if want[k] == "D" { // the library resolves country codes; Doc 9303-3 §5: "D" is Germany
 				want[k] = "DEU"
@@ -683,6 +689,30 @@ func buildDoc(bufs map[string][]byte) (*document.Document, error) {
 		}
 	}
 	return doc, nil
+}
+
+// ownViewLaw: see the call site.
+func ownViewLaw(kind string, raw []byte) string {
+	buf := append([]byte(nil), raw...)
+	var doc *document.Document
+	var err error
+	if kind == "CardSecurity" {
+		doc = &document.Document{}
+		doc.Mf.CardSecurity, err = document.NewCardSecurity(buf)
+	} else {
+		doc, err = buildDoc(map[string][]byte{kind: buf})
+	}
+	if err != nil {
+		return ""
+	}
+	j0 := docJSON(doc)
+	for i := range buf {
+		buf[i] ^= 0xA5
+	}
+	if j1 := docJSON(doc); j1 != j0 {
+		return "the parsed view changed when the caller overwrote the buffer it had passed to the constructor"
+	}
+	return ""
 }
 
 func docJSON(d *document.Document) string {
